@@ -55,7 +55,11 @@ def jsxMemberToExpr : Node → Node
       | .mk .ident ("this" :: _) _ => .mk (.other "ThisExpression") [] []
       | .mk .ident as _ => .mk .ident as []
       | m => jsxMemberToExpr m
-    .mk .member [] [o, prop]
+    -- `<a.b-c>`: a property that is not an identifier name is written `a["b-c"]`
+    let p := match prop with
+      | .mk .ident (name :: _) _ => if isValidPropIdent name then prop else nComputed (nStr name)
+      | p => p
+    .mk .member [] [o, p]
   | n => n
 
 /-- `transform_tag(jsx_element_name)` -/
